@@ -521,13 +521,20 @@ pub fn judge(c: &Case, exp: &Expect, o: &Observed) -> Option<Found> {
     }
 }
 
-const GLOBAL_VALUES: &[&str] = &["a/b/c.py", "x=y", "two words", "héé", "", "=", "plain", "x1y22z333", "a,b", "a,k=v", "--json", "-q", "\"quoted\"", "tab\there"];
+const GLOBAL_VALUES: &[&str] = &[" lead", "trail ", " -> ", "  ", "a/b/c.py", "x=y", "two words", "héé", "", "=", "plain", "x1y22z333", "a,b", "a,k=v", "--json", "-q", "\"quoted\"", "tab\there"];
 
 pub fn make_case(ctx: &ShardCtx, i: u64) -> Case {
     let seed = ctx.run_seed(i);
     let mut r = Rng::sub(seed, "plan");
     let kind_roll = r.below(10);
     let (tsg, needed, kind): (String, Vec<(String, &'static str)>, &str) = match kind_roll {
+        2 if r.chance(1, 2) => (
+            // echoes exactly what the tool hands to the library: the global's text and the
+            // extent and text of the whole source
+            "global g_path\n\n(module) @m\n{\n  node n\n  attr (n) g = g_path, text = (source-text @m), er = (end-row @m), ec = (end-column @m)\n}\n".to_string(),
+            vec![("g_path".to_string(), "str")],
+            "echo",
+        ),
         0 => ("(identifier) @id (module) @m\n{\n  node n\n}\n".to_string(), vec![], "rejected-syntax"),
         1 => ("(module (_) @a (_) @b) @m\n{\n  node n\n}\n".to_string(), vec![], "rejected-check"),
         _ => {
@@ -542,7 +549,13 @@ pub fn make_case(ctx: &ShardCtx, i: u64) -> Case {
         }
     };
     let scfg = pysrc::SrcCfg { max_stmts: 8, syntax_errors: if r.chance(1, 4) { 1 } else { 0 }, ..Default::default() };
-    let source = pysrc::gen_source(&mut Rng::sub(seed, "src"), &scfg);
+    let mut source = pysrc::gen_source(&mut Rng::sub(seed, "src"), &scfg);
+    if r.chance(1, 4) {
+        // a source file whose last line is not newline-terminated
+        while source.ends_with('\n') {
+            source.pop();
+        }
+    }
     let json = r.chance(1, 2);
     let output = json && r.chance(1, 2);
     let mut globals: Vec<(String, String)> = Vec::new();
